@@ -49,6 +49,35 @@ func funcKey(fn *ssa.Function) string {
 	return pkgName + "." + fn.Name()
 }
 
+// fieldFuncKey names a call through a function-typed struct field: pkg.Type.field
+// (e.g. litestream.DB.openLTXFile), or "" if the callee value is not such a load.
+func fieldFuncKey(c *ssa.CallCommon) string {
+	if c == nil || c.IsInvoke() {
+		return ""
+	}
+	ld, ok := c.Value.(*ssa.UnOp)
+	if !ok {
+		return ""
+	}
+	fa, ok := ld.X.(*ssa.FieldAddr)
+	if !ok {
+		return ""
+	}
+	pt, ok := fa.X.Type().Underlying().(*types.Pointer)
+	if !ok {
+		return ""
+	}
+	n, ok := types.Unalias(pt.Elem()).(*types.Named)
+	if !ok || n.Obj().Pkg() == nil {
+		return ""
+	}
+	s, ok := n.Underlying().(*types.Struct)
+	if !ok || fa.Field >= s.NumFields() {
+		return ""
+	}
+	return n.Obj().Pkg().Name() + "." + n.Obj().Name() + "." + s.Field(fa.Field).Name()
+}
+
 func invokeKey(c *ssa.CallCommon) string {
 	rt := types.Unalias(c.Value.Type())
 	name := rt.String()
@@ -99,6 +128,8 @@ func (fr *Frame) doCall(site ssa.Instruction, c *ssa.CallCommon, fv Val, args []
 		key = invokeKey(c)
 	} else if cv, ok := fv.(*ClosV); ok {
 		key = funcKey(cv.Fn)
+	} else {
+		key = fieldFuncKey(c)
 	}
 	if key == "" {
 		return fr.doCall0(site, c, fv, args, cond, st)
@@ -204,6 +235,12 @@ func (fr *Frame) doCall0(site ssa.Instruction, c *ssa.CallCommon, fv Val, args [
 	}
 	cv, ok := fv.(*ClosV)
 	if !ok {
+		// a call through a function-typed struct field may carry an (assumed) contract keyed pkg.Type.field
+		if fk := fieldFuncKey(c); fk != "" {
+			if ct := vc.eng.contractFor(fk); ct != nil {
+				return fr.callContract(site, ct, fk, nil, c.Signature(), args, cond, st, true)
+			}
+		}
 		vc.assume("dynamic call through function value (havoc): " + fr.posOf(site))
 		fr.havocAllHeap(st)
 		return fresh("dyn"), cond
